@@ -67,7 +67,11 @@ def call_driver(case, api):
         if len(got) != 1:
             out = {"o": "host", "type": "NoOutcome", "where": "driver", "msg": "got %d outputs" % len(got)}
         elif got[0][0] == "v":
-            out = {"o": "value", "v": wire.to_wire(got[0][1]), "recv_after": wire.to_wire(got[0][2])}
+            if isinstance(got[0][1], str) and len(got[0][1]) > 50_000_000:
+                # a gigantic result (no enumerated case has one): recorded as such, not serialised
+                out = {"o": "host", "type": "GiganticResult", "where": "driver", "msg": "string of %d elements" % len(got[0][1])}
+            else:
+                out = {"o": "value", "v": wire.to_wire(got[0][1]), "recv_after": wire.to_wire(got[0][2])}
         else:
             out = {"o": "throw", "cls": str(got[0][1])}
     return {"id": case["id"], "out": out}
